@@ -41,17 +41,20 @@ pub fn custom_scalar_valid(v: &Value) -> bool {
 }
 
 /// A (nested) list of leaf values as one plain `Value::List`; `None` when an object reference occurs in it.
-fn plain_leaf_list(items: &[WVal]) -> Option<Value> {
+fn plain_leaf_list(items: &[WVal], invalid: bool) -> Option<Value> {
     let mut out = Vec::with_capacity(items.len());
     for it in items {
         out.push(match it {
             WVal::Null => Value::Null,
+            // the same invalid stand-ins as `wval_to_field_value` (fault kind InvalidValue)
+            WVal::Int(_) if invalid => Value::from(-1i64),
+            WVal::Enum(_) if invalid => Value::Enum(Name::new("NOT_A_VALUE")),
             WVal::Int(i) => Value::from(*i),
             WVal::Float(f) => Value::from(*f),
             WVal::Str(s) => Value::String(s.clone()),
             WVal::Bool(b) => Value::Boolean(*b),
             WVal::Enum(e) => Value::Enum(Name::new(e)),
-            WVal::List(inner) => plain_leaf_list(inner)?,
+            WVal::List(inner) => plain_leaf_list(inner, invalid)?,
             WVal::Ref(_) => return None,
         });
     }
@@ -82,8 +85,8 @@ fn wval_to_field_value(world: &World, sch: &Sch, ty: &Ty, v: &WVal, invalid: boo
                 Ty::List(i) => (**i).clone(),
                 t => t.clone(),
             };
-            if world.plain_leaf_lists && !invalid {
-                if let Some(v) = plain_leaf_list(items) {
+            if world.plain_leaf_lists {
+                if let Some(v) = plain_leaf_list(items, invalid) {
                     return Some(FieldValue::value(v));
                 }
             }
